@@ -2709,6 +2709,31 @@ impl Melda {
         self.data.read().unwrap().applied_packs().clone()
     }
 
+    /// Digests held by the object cache (most recently used first)
+    pub fn verif_data_cache_keys(&self) -> Vec<String> {
+        self.data.read().unwrap().verif_cache_keys()
+    }
+
+    /// Digests of the staged objects (sorted)
+    pub fn verif_stage_keys(&self) -> Vec<String> {
+        self.data.read().unwrap().verif_stage_keys()
+    }
+
+    /// Index of committed objects: digest -> (pack, offset, length)
+    pub fn verif_committed_objects(&self) -> BTreeMap<String, (String, usize, usize)> {
+        self.data.read().unwrap().verif_committed_objects()
+    }
+
+    /// Revisions held by the array descriptor cache (most recently used first)
+    pub fn verif_array_cache_keys(&self) -> Vec<String> {
+        self.array_descriptors_cache
+            .lock()
+            .unwrap()
+            .iter()
+            .map(|(k, _)| k.to_string())
+            .collect()
+    }
+
     /// True if the tree-level staging flag of the object is set
     pub fn verif_tree_has_staging(&self, uuid: &str) -> Option<bool> {
         let docs_r = self.documents.read().unwrap();
